@@ -35,13 +35,73 @@ package atree
 //@      (len(s.childrenHeaders) > 0 ==> s.header.count == s.childrenCountSum[len(s.childrenHeaders) - 1] && s.childrenCountSum[0] == s.childrenHeaders[0].count) &&
 //@      (forall k :: 1 <= k && k < len(s.childrenHeaders) ==> s.childrenCountSum[k] == s.childrenCountSum[k - 1] + s.childrenHeaders[k].count)
 
-//@ func newArrayMetaDataSlabFromDataV1(id, h, data, decMode, decodeTypeInfo) (slab, err)  serves C06 C08 C19
+//@ # what the decoder reads out of the body of a non-root array index register (the bytes after the 2-byte head)
+//@ pred amdsData(s *ArrayMetaDataSlab, d []byte) = len(d) == 10 + 14 * len(s.childrenHeaders) && be16(d, 8) == len(s.childrenHeaders) &&
+//@      (forall k :: 0 <= k && k < len(s.childrenHeaders) ==> s.childrenHeaders[k].slabID.address == be64(d, 0) && s.childrenHeaders[k].slabID.index == be64(d, 10 + 14 * k) &&
+//@          s.childrenHeaders[k].count == be32(d, 10 + 14 * k + 8) && s.childrenHeaders[k].size == be16(d, 10 + 14 * k + 12))
+
+//@ func newArrayMetaDataSlabFromDataV1(id, h, data, decMode, decodeTypeInfo) (slab, err)  serves C06 C07 C08 C19
 //@   option alloc-bound len(data)
 //@   ensures[C19] err != nil ==> slab == nil && categorised(err)
 //@   ensures[C08] err == nil ==> fresh(slab) && decodedMetaNF(slab, id)
 //@   ensures[C06] err == nil ==> slab.header.size == 12 + 14 * len(slab.childrenHeaders)
+//@   # content (non-root register, after the 2-byte head): address(8) count(2), then per child index(8) count(4) size(2), big-endian
+//@   ensures[C07] err == nil && !bit(h[1], 7) ==> amdsData(slab, data) && slab.extraData == nil
 //@   modifies alloc
 //@   loop 1: invariant 0 <= i && i <= len(childrenHeaders) && offset == 10 + 14 * i && len(childrenHeaders) == childHeaderCount && len(childrenCountSum) == childHeaderCount &&
 //@        len(data) == 10 + 14 * childHeaderCount && totalCount == ite(i > 0, childrenCountSum[i - 1], 0) &&
 //@        (i > 0 ==> childrenCountSum[0] == childrenHeaders[0].count) &&
 //@        (forall k :: 1 <= k && k < i ==> childrenCountSum[k] == childrenCountSum[k - 1] + childrenHeaders[k].count)
+//@   loop 1: invariant (forall k :: 0 <= k && k < i ==> childrenHeaders[k].slabID.address == be64(data, 0) && childrenHeaders[k].slabID.index == be64(data, 10 + 14 * k) &&
+//@        childrenHeaders[k].count == be32(data, 10 + 14 * k + 8) && childrenHeaders[k].size == be16(data, 10 + 14 * k + 12)) && address == be64(data, 0)
+
+//@ # ---- byte-level round trip of a non-root array index slab (C07), over the two contracts above: if b[o:] is what the encoder writes
+//@ # for a (amdsBytes, proved on ArrayMetaDataSlab.Encode) and s is what the decoder builds from the body b[o+2:] (amdsData and the
+//@ # normal form, proved on newArrayMetaDataSlabFromDataV1), then s has the same child headers, in the same order, and the same own
+//@ # header as a. Needs: child sizes and the child count fit 16 bits (C05), and the children carry the slab's own address (only one
+//@ # address is written; C09).
+//@ lemma amdsRoundTrip(a *ArrayMetaDataSlab, s *ArrayMetaDataSlab, b []byte, d []byte, o int)  serves C07
+//@   requires a != nil && s != nil && o >= 0 && amdsBytes(a, b, o) && len(d) == len(b) - o - 2 && (forall j :: 0 <= j && j < len(d) ==> d[j] == b[o + 2 + j])
+//@   requires amdsData(s, d) && decodedMetaNF(s, a.header.slabID) && wfMeta0(a) && len(a.childrenHeaders) <= 65535
+//@   requires forall k :: 0 <= k && k < len(a.childrenHeaders) ==> a.childrenHeaders[k].size <= 65535 && a.childrenHeaders[k].slabID.address == a.header.slabID.address
+//@   ensures len(s.childrenHeaders) == len(a.childrenHeaders)
+//@   ensures forall k :: 0 <= k && k < len(a.childrenHeaders) ==> s.childrenHeaders[k] == a.childrenHeaders[k]
+//@   ensures s.header.slabID == a.header.slabID && s.header.size == a.header.size
+
+//@ # ... and the derived fields (cumulative counts, total count) are then equal too, by induction over the children
+//@ lemma amdsRoundTripCounts(a *ArrayMetaDataSlab, s *ArrayMetaDataSlab, k int) induction k  serves C07
+//@   requires a != nil && s != nil && wfMeta0(a) && decodedMetaNF(s, a.header.slabID) && len(s.childrenHeaders) == len(a.childrenHeaders)
+//@   requires forall j :: 0 <= j && j < len(a.childrenHeaders) ==> s.childrenHeaders[j] == a.childrenHeaders[j]
+//@   requires 0 <= k && k < len(a.childrenHeaders)
+//@   ensures s.childrenCountSum[k] == a.childrenCountSum[k] && (k == len(a.childrenHeaders) - 1 ==> s.header == a.header)
+//@   trigger { s.childrenCountSum[k] }
+
+//@ # ---- the same for a non-root map index slab: address(8) count(2), then per child index(8) first key(8) size(2)
+//@ pred mmdsBytes(m *MapMetaDataSlab, b []byte, o int) = len(b) == o + 12 + 18 * len(m.childrenHeaders) &&
+//@      be64(b, o + 2) == m.header.slabID.address && be16(b, o + 10) == len(m.childrenHeaders) &&
+//@      (forall k :: 0 <= k && k < len(m.childrenHeaders) ==> be64(b, o + 12 + 18 * k) == m.childrenHeaders[k].slabID.index &&
+//@          be64(b, o + 12 + 18 * k + 8) == m.childrenHeaders[k].firstKey && be16(b, o + 12 + 18 * k + 16) == m.childrenHeaders[k].size)
+//@ pred mmdsData(s *MapMetaDataSlab, d []byte) = len(d) == 10 + 18 * len(s.childrenHeaders) && be16(d, 8) == len(s.childrenHeaders) &&
+//@      (forall k :: 0 <= k && k < len(s.childrenHeaders) ==> s.childrenHeaders[k].slabID.address == be64(d, 0) && s.childrenHeaders[k].slabID.index == be64(d, 10 + 18 * k) &&
+//@          s.childrenHeaders[k].firstKey == be64(d, 10 + 18 * k + 8) && s.childrenHeaders[k].size == be16(d, 10 + 18 * k + 16))
+//@ # normal form of a decoded map index slab: own header derived from the decoded child headers
+//@ pred decodedMapMetaNF(s *MapMetaDataSlab, id SlabID) = s != nil && s.header.slabID == id && s.header.size == 12 + 18 * len(s.childrenHeaders) &&
+//@      s.header.firstKey == ite(len(s.childrenHeaders) > 0, s.childrenHeaders[0].firstKey, 0)
+
+//@ func newMapMetaDataSlabFromDataV1(id, h, data, decMode, decodeTypeInfo) (slab, err)  serves C06 C07 C08 C19
+//@   option assume-nonnil-params true
+//@   ensures[C19] err != nil ==> slab == nil
+//@   ensures[C08] err == nil ==> fresh(slab) && decodedMapMetaNF(slab, id)
+//@   ensures[C07] err == nil && !bit(h[1], 7) ==> mmdsData(slab, data) && slab.extraData == nil
+//@   modifies heap
+//@   loop 1: invariant 0 <= i && i <= len(childrenHeaders) && offset == 10 + 18 * i && len(childrenHeaders) == childHeaderCount && len(data) == 10 + 18 * childHeaderCount && address == be64(data, 0)
+//@   loop 1: invariant (forall k :: 0 <= k && k < i ==> childrenHeaders[k].slabID.address == be64(data, 0) && childrenHeaders[k].slabID.index == be64(data, 10 + 18 * k) &&
+//@        childrenHeaders[k].firstKey == be64(data, 10 + 18 * k + 8) && childrenHeaders[k].size == be16(data, 10 + 18 * k + 16))
+
+//@ lemma mmdsRoundTrip(m *MapMetaDataSlab, s *MapMetaDataSlab, b []byte, d []byte, o int)  serves C07
+//@   requires m != nil && s != nil && o >= 0 && mmdsBytes(m, b, o) && len(d) == len(b) - o - 2 && (forall j :: 0 <= j && j < len(d) ==> d[j] == b[o + 2 + j])
+//@   requires mmdsData(s, d) && decodedMapMetaNF(s, m.header.slabID) && wfMM0(m) && len(m.childrenHeaders) <= 65535
+//@   requires forall k :: 0 <= k && k < len(m.childrenHeaders) ==> m.childrenHeaders[k].size <= 65535 && m.childrenHeaders[k].slabID.address == m.header.slabID.address
+//@   ensures len(s.childrenHeaders) == len(m.childrenHeaders)
+//@   ensures forall k :: 0 <= k && k < len(m.childrenHeaders) ==> s.childrenHeaders[k] == m.childrenHeaders[k]
+//@   ensures s.header == m.header
